@@ -119,6 +119,10 @@ func init() {
 			RunCallers(c, "E1.decoder-table", "oidc.ParseToken", []string{"client/rp.VerifyIDToken", "op.VerifyAccessToken", "op.VerifyIDTokenHint", "op.VerifyJWTAssertion", "op.ParseRequestObject"},
 				"every function that decodes a JWT must verify its signature; a new decoder needs a decoder-verifies obligation")
 			RunCallers(c, "E1.algs-table", "oidc.toJoseSignatureAlgorithms", []string{"oidc.CheckSignature"}, "the only constructor of a verification allow-list")
+			// each verifier's key set is configured by its own option only (a copy/paste slip between the two sibling options
+			// makes one verifier trust the other's keys)
+			RunFieldWriters(c, "E6.keyset.hint-writers", "op", "Provider", "idTokenHinKeySet", []string{"op.WithIDTokenHintKeySet"}, "the id_token_hint key set is set by WithIDTokenHintKeySet only")
+			RunFieldWriters(c, "E6.keyset.access-token-writers", "op", "Provider", "accessTokenKeySet", []string{"op.WithAccessTokenKeySet"}, "the access-token key set is set by WithAccessTokenKeySet only")
 			RunImplementers(c, "E7.keyset-table", "oidc", "KeySet", []string{"client/rp.remoteKeySet", "op.OpenIDKeySet", "op.jwtProfileKeySet"}, "each KeySet implementation needs a keyset obligation")
 		},
 	})
